@@ -7,6 +7,7 @@ import itertools
 from hypothesis import strategies as st
 
 from .. import sched
+from ..strategies import prob as strategies_prob
 from ..common import Run, ShardResult, run_shards, scratch, spec_hash, verif_seed
 from ..common import thorough  # noqa: E402
 from ..hyp import Outcome, drive
@@ -22,7 +23,8 @@ RULE = (
     "cache holds lock, marker, object and library. Non-trivial = a schedule in which another process attempts the lock between the "
     "builder's lock creation and its marker creation; distinct by history hash. Half of the three-process cases contain an impatient "
     "request (timeout of 1-3 polls) that gives up while the builder holds the lock, followed by a third request: the time-out may raise "
-    "in that process only and all other invariants must still hold. The thorough tier additionally enumerates all "
+    "in that process only and all other invariants must still hold. A share of the cases races two *different* requests (the same form "
+    "with part='full' and part='diagonal') on one cache directory: one compilation per distinct request, every process must get its own module. The thorough tier additionally enumerates all "
     "interleavings of two processes up to the waiter's first poll."
 )
 
@@ -36,6 +38,12 @@ def cases(draw):
         if i not in schedule:
             schedule.append(i)
     case = {"n": n, "schedule": schedule, "form": draw(st.sampled_from(["mass_p1", "stiff_p1_interval"]))}
+    if "impatient" not in case and case["form"] == "mass_p1" and strategies_prob(draw, 0.3):
+        # two *different* requests (same form, part='full' and part='diagonal') race on one cache directory: each must get its own module
+        case["forms"] = [draw(st.sampled_from(["mass_p1", "mass_p1_diag"])) for _ in range(n)]
+        if len(set(case["forms"])) == 1:
+            case["forms"][-1] = "mass_p1_diag" if case["forms"][0] == "mass_p1" else "mass_p1"
+        return case
     if n == 3 and draw(st.booleans()):
         # an impatient request: process 1 gives up after 1-3 polls while process 0 (k sync points into its build) still holds the
         # lock; process 2 arrives afterwards.  The time-out may raise in process 1 but must not disturb the others.
@@ -82,6 +90,9 @@ def evaluate(case, wd):
     d.mkdir()
     job = {"cache": str(d / "cache"), "requests": [{"form": case["form"], "timeout": 400}]}
     jobs = [job] * case["n"]
+    if case.get("forms"):
+        jobs = [{"cache": str(d / "cache"), "requests": [{"form": fn, "timeout": 400}]} for fn in case["forms"]]
+        classes_extra = ["mixed-requests"]
     imp = case.get("impatient")
     if imp:
         jobs = list(jobs)
@@ -98,6 +109,8 @@ def evaluate(case, wd):
         return Outcome("violation", case_id=h, classes=classes, key=f"{PROP}:{kind}:{spec_hash([i for i, _ in hist])}", bucket=f"{PROP}:{kind}", what=what + " | history: " +
                        " | ".join(f"{i}:{t}" for i, t in hist)[:1200], replay=replay, sample=sample)
 
+    if case.get("forms"):
+        return evaluate_mixed(case, d, hist, kids, classes, viol, sample, h)
     bad = check_history(hist, kids, case["n"], impatient=imp["who"] if imp else None)
     if bad:
         return viol(*bad)
@@ -118,6 +131,31 @@ def evaluate(case, wd):
     inside = any(lock < k < marker and i != builder and t == "open:c:x" for k, (i, t) in enumerate(hist))
     o = Outcome("ok", case_id=spec_hash([i for i, _ in hist]), nontrivial=inside, classes=classes + (["lock-attempt-inside-critical-section"] if inside else []), sample=sample)
     return o
+
+
+def evaluate_mixed(case, d, hist, kids, classes, viol, sample, h):
+    """Different requests racing on one cache directory: one compilation per distinct request, every process gets *its* module."""
+    classes = classes + ["mixed-requests"]
+    compilers = sorted({i for i, t in hist if t.startswith("spawn:cc")})
+    distinct = sorted(set(case["forms"]))
+    for kid in kids:
+        if not kid.results:
+            return viol("no-result", f"process {kid.idx} ended without a result (exit {kid.p.returncode})")
+        r = kid.results[0]
+        if r["status"] != "ok":
+            return viol("exception", f"process {kid.idx} (request {case['forms'][kid.idx]}) raised {r.get('exc')}: {r.get('msg')}")
+        if not r["correct"]:
+            return viol("wrong-kernel", f"process {kid.idx} asked for {case['forms'][kid.idx]} but its kernel computes {r['total']} (another request's module)")
+    if len(compilers) != len(distinct):
+        return viol("compile-count", f"{len(compilers)} processes compiled for {len(distinct)} distinct requests {distinct}: {compilers}")
+    for fn in distinct:
+        late, err = sched.run_plain({"cache": str(d / "cache"), "requests": [{"form": fn, "timeout": 5}]}, d, "late_" + fn)
+        if late is None:
+            return Outcome("harness-error", case_id=h, classes=classes, what=err)
+        r = late[0]
+        if r["status"] != "ok" or not r["correct"] or r["compiled"]:
+            return viol("late-request", f"late request for {fn}: {r}")
+    return Outcome("ok", case_id=spec_hash([case["forms"], [i for i, _ in hist]]), nontrivial=True, classes=classes, sample=sample)
 
 
 def enumerate_two(form, wd, limit):
